@@ -27,6 +27,11 @@ Example C05_zero_inputs :
     forall H, tx_hash H t = H (H [x02; x00; x00; x00; x00] ++ H [x00] ++ repeat x00 32).
 Proof. eexists. split; [reflexivity|]. intros H. reflexivity. Qed.
 
+(* the constant Transaction::hash uses for a MISSING prunable part of a non-Null type (unreachable from parsing) is the
+   byte-REVERSED Keccak-256 of the empty string, not that digest itself: recorded as an observation in DESIGN section 0 *)
+Example C05_empty_hash_const_is_reversed : empty_hash_const = rev (keccak256 []) /\ empty_hash_const <> keccak256 [].
+Proof. split; [vm_compute; reflexivity|vm_compute; discriminate]. Qed.
+
 Check C05_tx_id : forall H sz b t, dec_tx sz b = (Ok t, []) -> spec_id H sz b = Some (tx_hash H t).
 Check C05_prefix_hash : forall H sz b t,
   dec_tx sz b = (Ok t, []) -> spec_prefix_hash H sz b = Some (prefix_hash H (tx_prefix t)).
